@@ -1072,7 +1072,8 @@ impl WasmGenerator {
             // overwrite the first result while the caller still reads it.
             self.use_runtime_alloc_for_current_function =
                 Self::function_has_non_external_calls(func)
-                    || Self::function_returns_aggregate(func);
+                    || Self::function_returns_aggregate(func)
+                    || Self::function_makes_closure(func);
 
             // Reset register mapping and type tracking for each function
             self.registers.clear();
@@ -2262,6 +2263,19 @@ impl WasmGenerator {
                 I::Return(_, ty) | I::ReturnFeed(_, ty) => ty.word_size() > 1,
                 _ => false,
             })
+    }
+
+    /// Returns true if the function creates a closure. A closure captures the
+    /// ADDRESS of the `Alloc` cells it closes over, so those cells must be unique
+    /// per invocation: with compile-time fixed slots every closure made by the
+    /// same (leaf) function would share one set of captured variables.
+    fn function_makes_closure(func: &mir::Function) -> bool {
+        use mir::Instruction as I;
+
+        func.body
+            .iter()
+            .flat_map(|bb| bb.0.iter())
+            .any(|(_, instr)| matches!(instr, I::MakeClosure { .. } | I::Closure(_)))
     }
 
     /// Export all functions and memory
